@@ -3,7 +3,7 @@
 set -u
 P=$(realpath $1); shift
 T=$(mktemp -d /dev/shm/sa_ref.XXXXXX)
-cp -r /repo/norminette "$T/norminette"; find "$T" -name __pycache__ -prune -exec rm -rf {} +
+git -C /repo archive HEAD norminette | tar -x -C "$T"; find "$T" -name __pycache__ -prune -exec rm -rf {} +
 (cd "$T" && patch -s -p1 < "$P") || { echo PATCH-FAILED; rm -rf $T; exit 3; }
 cd /verif
 SA_REPO="$T" /venv/bin/python -c "
